@@ -4,6 +4,7 @@ import (
 	"go/token"
 	"go/types"
 	"sort"
+	"strconv"
 	"strings"
 
 	"golang.org/x/tools/go/ssa"
@@ -20,7 +21,7 @@ func init() {
 			`R13.4 every magic constant written has a reader expecting the same constant; R13.5 in package wire the byte count returned by a Read call is never discarded (a source may return 0, nil at a save point); R13.6 every success return of ReadMessage has passed msg.Reset() and the unmarshalling of the bytes just read (decoding merges, so without the reset an all-default message reads back as its predecessor). ` +
 			`R13.7 WriteMessage writes the varint length and then the marshalled bytes on every success path, empty payloads included; R13.8 every success return of WriteContext.Close has tested the writer against an interface with a Close method and, on the branch where the test held, invoked it (CompressWire hands the compressor to a WriteContext: its Close writes the final block and trailer that make the stream end). ` +
 			`R13.9 every success path of Resume stores a save state other than 'has a source checkpoint', or reaches the return through a test that shows the state is another one. ` +
-			`NOT decided: the round trip itself, buffer regrowth, decompressor checkpoints lagging the message offset (savior's code).`,
+			`R13.10 reader and writer agree on message length limits; R13.11 the source DecompressWire hands to NewReadContext derives on every branch from Section(offset, size-offset) and was resumed from nil; R07.5 (shared) streams are decompressed as their own header declares. NOT decided: the round trip itself, buffer regrowth, decompressor checkpoints lagging the message offset (savior's code).`,
 		Assumptions: []string{"the underlying source is the field source of wire.ReadContext"},
 		Run:         runC13,
 	})
@@ -265,6 +266,9 @@ func runC13(c *core.Ctx) {
 
 	ruleWriterCloseFinishesStream(c)
 	ruleResumeLeavesNothingPending(c)
+	ruleReaderAcceptsWhatWriterWrites(c, "R13.10")
+	ruleDecompressedWireStartsAtZero(c, "R13.11")
+	ruleDecompressAsDeclared(c, "R07.5")
 
 	// ---- R13.4 magic pairing
 	written, expected := map[int64][]string{}, map[int64][]string{}
@@ -884,4 +888,189 @@ func ruleResumeLeavesNothingPending(c *core.Ctx) {
 			"Resume can succeed with a delivered-but-unpopped source checkpoint still pending: the next PopCheckpoint pairs the resumed offset with a source checkpoint from further along the stream, and resuming from that fails ('source resumed after our offset')").Path = c.P.PathStrings(p)
 	}
 	c.Floor("R13.9", "success returns of Resume", n, 1)
+}
+
+// ruleReaderAcceptsWhatWriterWrites is R13.10 (shared with C04): "any sequence of messages written through the
+// wire writer ... is read back". If ReadMessage fails because the decoded length is beyond some constant,
+// WriteMessage must refuse such a message too (with a constant that is not larger): otherwise a message the
+// writer happily wrote - a container listing very many files is a single message - cannot be read back.
+func ruleReaderAcceptsWhatWriterWrites(c *core.Ctx, rule string) {
+	c.Rule(rule, "the reader refuses no message length the writer accepts")
+	rm := c.P.Fn("wire", "ReadContext.ReadMessage")
+	wm := c.P.Fn("wire", "WriteContext.WriteMessage")
+	if rm == nil || wm == nil {
+		c.Missing(rule, "wire.ReadMessage / WriteMessage", "not found")
+		return
+	}
+	lengthOf := func(fn *ssa.Function, isSrc func(ssa.Value) bool) func(ssa.Value) bool {
+		var dep func(v ssa.Value, d int) bool
+		dep = func(v ssa.Value, d int) bool {
+			if d > 6 || v == nil {
+				return false
+			}
+			for _, o := range core.Origins(v) {
+				if isSrc(o) {
+					return true
+				}
+				switch x := o.(type) {
+				case *ssa.BinOp:
+					if dep(x.X, d+1) || dep(x.Y, d+1) {
+						return true
+					}
+				case *ssa.Call:
+					if b, ok := x.Call.Value.(*ssa.Builtin); ok && b.Name() == "len" && dep(x.Call.Args[0], d+1) {
+						return true
+					}
+				}
+			}
+			return false
+		}
+		return func(v ssa.Value) bool { return dep(v, 0) }
+	}
+	isDecoded := lengthOf(rm, func(o ssa.Value) bool {
+		ex, ok := o.(*ssa.Extract)
+		if !ok || ex.Index != 0 {
+			return false
+		}
+		cl, ok := ex.Tuple.(*ssa.Call)
+		return ok && (strings.HasSuffix(core.CalleeName(cl), "binary.ReadUvarint") || strings.HasSuffix(core.CalleeName(cl), "binary.ReadVarint"))
+	})
+	isMarshalled := lengthOf(wm, func(o ssa.Value) bool {
+		ex, ok := o.(*ssa.Extract)
+		if !ok || ex.Index != 0 {
+			return false
+		}
+		cl, ok := ex.Tuple.(*ssa.Call)
+		return ok && strings.HasSuffix(core.CalleeName(cl), "proto.Marshal")
+	})
+	// the constants beyond which a function fails
+	limits := func(fn *ssa.Function, isLen func(ssa.Value) bool) map[int64]ssa.Instruction {
+		out := map[int64]ssa.Instruction{}
+		success := map[ssa.Instruction]bool{}
+		for _, rs := range successReturns(fn) {
+			success[rs.Ret] = true
+		}
+		core.Instrs(fn, func(in ssa.Instruction) {
+			if !isReturn(in) || success[in] {
+				return
+			}
+			for _, g := range core.Guards(in) {
+				bo, ok := g.Cond.(*ssa.BinOp)
+				if !ok {
+					continue
+				}
+				for _, pair := range [][2]ssa.Value{{bo.X, bo.Y}, {bo.Y, bo.X}} {
+					k, isC := core.ConstInt(core.StripConv(pair[1]))
+					if !isC || !isLen(pair[0]) {
+						continue
+					}
+					// length > K / length >= K taken, or K < length ...
+					if relHolds(g, token.GTR, isLen, isConstInt(k)) || relHolds(g, token.GEQ, isLen, isConstInt(k)) {
+						out[k] = in
+					}
+				}
+			}
+		})
+		return out
+	}
+	rl, wl := limits(rm, isDecoded), limits(wm, isMarshalled)
+	c.Stats[rule+".reader_limits"] = len(rl)
+	c.Stats[rule+".writer_limits"] = len(wl)
+	for k, at := range rl {
+		matched := false
+		for kw := range wl {
+			if kw <= k {
+				matched = true
+			}
+		}
+		c.Check(matched, rule, core.FnName(rm), "length limit of the reader is also the writer's", core.InstrPos(at),
+			"WriteMessage fails for lengths beyond a constant that is not larger", "ReadMessage refuses messages longer than "+strconv.FormatInt(k, 10)+" bytes and WriteMessage does not: a message the writer accepted (a container with very many files is one message) cannot be read back")
+	}
+	c.Ok(rule, core.FnName(rm), "reader and writer limits compared", rm.Pos(), strconv.Itoa(len(rl))+" reader limit(s), "+strconv.Itoa(len(wl))+" writer limit(s)")
+}
+
+// ruleDecompressedWireStartsAtZero is R13.11: the checkpoints of the reader DecompressWire returns count from
+// the first byte after the header - for every algorithm. The source handed to NewReadContext is, on every
+// branch, the section of the original source cut at the current position (or a decompressor applied to it),
+// and it has been resumed from nothing before the function succeeds. A pass-through for NONE over the
+// un-sectioned source reads the same bytes but pops checkpoints whose two offsets have different origins.
+func ruleDecompressedWireStartsAtZero(c *core.Ctx, rule string) {
+	c.Rule(rule, "the decompressed wire is a section that starts at offset 0, whatever the algorithm")
+	fn := c.P.Fn("pwr", "DecompressWire")
+	if fn == nil {
+		c.Missing(rule, "pwr.DecompressWire", "not found")
+		return
+	}
+	var sec *ssa.Call
+	core.Instrs(fn, func(in ssa.Instruction) {
+		if cl, ok := in.(*ssa.Call); ok && cl.Call.IsInvoke() && cl.Call.Method.Name() == "Section" {
+			sec = cl
+		}
+	})
+	if sec == nil {
+		c.Bad(rule, core.FnName(fn), "section of the source", fn.Pos(), "DecompressWire no longer cuts a section of the original source at the current position")
+		return
+	}
+	var fromSection func(v ssa.Value, d int) bool
+	fromSection = func(v ssa.Value, d int) bool {
+		if d > 5 || v == nil {
+			return false
+		}
+		os := core.Origins(v)
+		if len(os) == 0 {
+			return false
+		}
+		for _, o := range os {
+			ok := false
+			switch x := o.(type) {
+			case *ssa.Extract:
+				if x.Tuple == ssa.Value(sec) && x.Index == 0 {
+					ok = true
+				} else if cl, isCall := x.Tuple.(*ssa.Call); isCall && x.Index == 0 {
+					for _, a := range cl.Call.Args {
+						if fromSection(a, d+1) {
+							ok = true
+						}
+					}
+				}
+			case *ssa.Call:
+				for _, a := range x.Call.Args {
+					if fromSection(a, d+1) {
+						ok = true
+					}
+				}
+			case *ssa.MakeInterface:
+				ok = fromSection(x.X, d+1)
+			case *ssa.ChangeInterface:
+				ok = fromSection(x.X, d+1)
+			case *ssa.TypeAssert:
+				ok = fromSection(x.X, d+1)
+			case *ssa.Const:
+				ok = x.IsNil() // the result variable of a failed step; the function has returned by then
+			}
+			if !ok {
+				return false
+			}
+		}
+		return true
+	}
+	isResume := func(in ssa.Instruction) bool {
+		cl, ok := in.(*ssa.Call)
+		return ok && cl.Call.IsInvoke() && cl.Call.Method.Name() == "Resume" && len(cl.Call.Args) == 1 && core.IsNilConst(cl.Call.Args[0])
+	}
+	n := 0
+	core.Instrs(fn, func(in ssa.Instruction) {
+		cl, ok := in.(*ssa.Call)
+		if !ok || !strings.HasSuffix(core.CalleeName(cl), "wire.NewReadContext") || len(cl.Call.Args) != 1 {
+			return
+		}
+		n++
+		okSrc := fromSection(cl.Call.Args[0], 0)
+		c.Check(okSrc, rule, core.FnName(fn), "the reader is built over the section (or a decompressor applied to it)", core.InstrPos(in),
+			"every value the source can be derives from Section(offset, size-offset)", "on some branch the reader is built over the original source, not over the section cut at the current position: its message offsets count from the end of the header while the source's own checkpoints count from the start of the file, and a popped checkpoint cannot be resumed from")
+		p := core.FindPath(fn, nil, isInstr(in), isResume)
+		c.Check(p == nil, rule, core.FnName(fn), "the source was resumed from nothing before the reader is built", core.InstrPos(in),
+			"every path passes source.Resume(nil)", "on some branch the source is handed to the reader without having been resumed").Path = c.P.PathStrings(p)
+	})
+	c.Floor(rule, "readers built by DecompressWire", n, 1)
 }
